@@ -24,7 +24,12 @@ static const Tgt kTargets[] = {
   {true, 0x2000, "base+0x2000"}, {true, -0x3000, "base-0x3000"}, {true, 0x7FFFF000ll, "base+2GiB-4K"}, {true, 0x80001000ll, "base+2GiB+4K"},
   {true, -0x80002000ll, "base-2GiB-8K"}, {false, 0x1000, "0x1000"}, {false, 0xFFFFF000ll, "0xFFFFF000"}, {false, 0x7FFF00001000ll, "0x7FFF00001000"},
   {true, 0x7FFFFFCll, "base+128MiB-4"}, {true, 0x8000000ll, "base+128MiB"}, {true, 0xFFFFCll, "base+1MiB-4"}, {true, 0x100000ll, "base+1MiB"},
+  // around the rel8 / rel32 form switch of a branch emitted near the start of the code
+  {true, 0x7F, "base+0x7f"}, {true, 0x83, "base+0x83"}, {true, 0x84, "base+0x84"}, {true, 0x85, "base+0x85"}, {true, 0x86, "base+0x86"}, {true, 0x87, "base+0x87"},
+  {true, 0x88, "base+0x88"}, {true, 0x89, "base+0x89"}, {true, 0x8A, "base+0x8a"}, {true, 0x8C, "base+0x8c"}, {true, 0x90, "base+0x90"},
+  {true, -0x70, "base-0x70"}, {true, -0x78, "base-0x78"}, {true, -0x79, "base-0x79"}, {true, -0x7A, "base-0x7a"}, {true, -0x7B, "base-0x7b"}, {true, -0x7C, "base-0x7c"}, {true, -0x7D, "base-0x7d"}, {true, -0x80, "base-0x80"},
 };
+static const int kFirstNearTarget = 12;
 static const int kNumTargets = sizeof(kTargets) / sizeof(kTargets[0]);
 static const uint64_t kBases[] = {0x10000ull, 0x7FFFF000ull, 0x80000000ull, 0xFFFFF000ull, 0x100000000ull, 0x7FFFFFFFF000ull, 0x8000000000000000ull, 0xFFFFFFFFFFFF0000ull};
 
@@ -228,6 +233,7 @@ static std::vector<Item> item_alphabet(int arch) {
     return v;
   }
   for (int k : {I_JMP, I_CALL, I_JCC}) for (int t = 0; t < 8; t++) v.push_back({k, 0, t});
+  for (int k : {I_JMP, I_JCC}) for (int t = kFirstNearTarget; t < kNumTargets; t++) v.push_back({k, 0, t});
   for (int k : {I_MOV, I_CMP8, I_CMP32}) for (int at = 0; at < 3; at++) for (int t = 0; t < 8; t++) v.push_back({k, at, t});
   v.push_back({I_EMBED4, 0, 0}); if (arch == AX64) v.push_back({I_EMBED8, 0, 0});
   v.push_back({I_MEM_LABEL, 0, 0}); v.push_back({I_LEA_LABEL, 0, 0});
